@@ -106,7 +106,7 @@ def record_one(job):
             try:
                 res = c13.rel_predicates(model, o, walls=walls, kmin=-3, kmax=3, per_decade=per_decade,
                                          inverse=model in ("general", "3gpp1", "freespace"))
-                names = ["Monotone", "LinearIsDb", "InUnit", "PolicyArrayScalar"] + (
+                names = ["Monotone", "LinearIsDb", "InUnit", "PolicyArrayScalar", "QueryPure"] + (
                     ["InverseId"] if model in ("general", "3gpp1", "freespace") else [])
                 fe["preds"] = {k: res[k] is None for k in names}
                 fe["why"] = {k: v for k, v in res.items() if v}
